@@ -91,7 +91,9 @@ impl<'tcx> Cx<'tcx> {
         use hir::ExprKind as K;
         match &e.kind {
             K::DropTemps(inner) | K::Use(inner, _) | K::Type(inner, _) => self.expr(inner),
-            K::ConstBlock(_) => self.base("constblock", e),
+            K::ConstBlock(cb) => self
+                .base("constblock", e)
+                .with("def", J::s(self.tcx.def_path_str(cb.def_id.to_def_id()))),
             K::Array(xs) => self
                 .base("array", e)
                 .with("elems", J::Arr(xs.iter().map(|x| self.expr(x)).collect())),
